@@ -1,7 +1,9 @@
 import WuffsVerif.Common.Line
 import WuffsVerif.Model.Indent
+import WuffsVerif.Model.Render
 /-! Line driver for C12.  Ops:
   format <tabs 0|1> <spaces n> <hex>   -> ok <hex>      (lib/dumbindent FormatBytes(nil, src, opts))
+  num <hex>                            -> ok <hex>      (lang/render appendNum(nil, s))
 -/
 open WuffsVerif WuffsVerif.Line
 
@@ -16,6 +18,10 @@ def c12Step (l : List String) : String :=
       | some out => "ok " ++ toHex out
       | none => "err fuel"
     | _, _ => "bad-op"
+  | ["num", hx] =>
+    match fromHex hx with
+    | some s => "ok " ++ toHex (Render.appendNum s)
+    | none => "bad-op"
   | _ => "bad-op"
 
 def main : IO Unit := runPure c12Step
